@@ -134,6 +134,112 @@ pub fn gen_config(tier: Tier) -> GenConfig {
     cfg
 }
 
+fn has_option(case: &Case, key: &str, val: &str) -> bool {
+    case.variants.iter().any(|v| v.options.iter().any(|(k, x)| k == key && x == val))
+}
+
+/// some join ON (or a WHERE next to a join) carries a range comparison
+fn join_with_range_predicate(q: &refsql::Query) -> bool {
+    use refsql::{BinOp, Expr, SetExpr, TableRef};
+    fn has_range(e: &Expr) -> bool {
+        let mut f = false;
+        refsql::eval::walk_expr_shallow(e, &mut |x| {
+            if matches!(x, Expr::Bin(BinOp::Lt | BinOp::Le | BinOp::Gt | BinOp::Ge, ..) | Expr::Between { .. }) {
+                f = true
+            }
+        });
+        f
+    }
+    fn tref(t: &TableRef, found: &mut bool, joins: &mut usize) {
+        if let TableRef::Join { left, right, on, .. } = t {
+            *joins += 1;
+            if on.as_ref().map(has_range).unwrap_or(false) {
+                *found = true;
+            }
+            tref(left, found, joins);
+            tref(right, found, joins);
+        }
+    }
+    fn set(e: &SetExpr, found: &mut bool) {
+        match e {
+            SetExpr::Select(s) => {
+                if let Some(t) = &s.from {
+                    let mut joins = 0;
+                    tref(t, found, &mut joins);
+                    if joins > 0 && s.where_.as_ref().map(has_range).unwrap_or(false) {
+                        *found = true;
+                    }
+                }
+            }
+            SetExpr::SetOp { left, right, .. } => {
+                set(left, found);
+                set(right, found)
+            }
+            SetExpr::Query(_) => {}
+        }
+    }
+    let mut found = false;
+    refsql::visit_queries(q, &mut |qq| set(&qq.body, &mut found));
+    // decorrelated subqueries become joins too
+    refsql::visit_exprs(q, &mut |e| {
+        if let Expr::Scalar(sq) | Expr::Exists { q: sq, .. } | Expr::InSubquery { q: sq, .. } | Expr::Quantified { q: sq, .. } = e {
+            if refsql::has_outer_refs(sq) {
+                if let SetExpr::Select(s) = &sq.body {
+                    if s.where_.as_ref().map(has_range).unwrap_or(false) {
+                        found = true;
+                    }
+                }
+            }
+        }
+    });
+    found
+}
+
+/// an outer join with a non-equi ON conjunct, or a correlated scalar subquery (decorrelated into a left join with filter)
+fn outer_join_with_filter(q: &refsql::Query) -> bool {
+    use refsql::{BinOp, Expr, JoinKind, SetExpr, TableRef};
+    fn pure_equi(e: &Expr) -> bool {
+        match e {
+            Expr::Bin(BinOp::And, l, r) => pure_equi(l) && pure_equi(r),
+            Expr::Bin(BinOp::Eq, l, r) => matches!(**l, Expr::Col { .. }) && matches!(**r, Expr::Col { .. }),
+            _ => false,
+        }
+    }
+    fn tref(t: &TableRef, found: &mut bool) {
+        if let TableRef::Join { kind, left, right, on } = t {
+            if matches!(kind, JoinKind::Left | JoinKind::Right | JoinKind::Full) && !on.as_ref().map(pure_equi).unwrap_or(true) {
+                *found = true;
+            }
+            tref(left, found);
+            tref(right, found);
+        }
+    }
+    fn set(e: &SetExpr, found: &mut bool) {
+        match e {
+            SetExpr::Select(s) => {
+                if let Some(t) = &s.from {
+                    tref(t, found)
+                }
+            }
+            SetExpr::SetOp { left, right, .. } => {
+                set(left, found);
+                set(right, found)
+            }
+            SetExpr::Query(_) => {}
+        }
+    }
+    let mut found = false;
+    refsql::visit_queries(q, &mut |qq| set(&qq.body, &mut found));
+    refsql::visit_exprs(q, &mut |e| {
+        if let Expr::Scalar(sq) = e {
+            if refsql::has_outer_refs(sq) {
+                found = true;
+            }
+        }
+    });
+    found
+}
+
 fn drop_invalid_options(v: &Variant) -> Variant {
     let valid = &valid_flips().0;
     let mut v = v.clone();
@@ -154,7 +260,7 @@ impl Property for C02 {
         (refsql::case_strategy(&gen_config(tier)), prop::collection::vec(variant_strategy(), n..=n), any::<bool>()).prop_map(|(sql, variants, concurrent)| Case { sql, variants, concurrent }).boxed()
     }
     fn budget(&self, tier: Tier) -> Budget {
-        Budget::new(tier.pick(400, 15_000), tier.pick(8, 16)).min_nontrivial(tier.pick(60, 2_000)).discard_cap(0.6).case_timeout(120).shrink(1500, 180)
+        Budget::new(tier.pick(240, 12_000), tier.pick(8, 16)).min_nontrivial(tier.pick(40, 2_000)).discard_cap(0.6).case_timeout(120).shrink(1500, 180)
     }
     fn rule(&self) -> String {
         format!(
@@ -172,6 +278,16 @@ impl Property for C02 {
             "queries are deterministic on the generated data according to vf_kit::refsql (no LIMIT over ties, total orders for order-sensitive windows)".into(),
             "floats compared with relative tolerance 1e-9 (dyadic inputs)".into(),
         ]
+    }
+    fn known_signature(&self, case: &Case) -> Option<String> {
+        let q = &case.sql.query;
+        if has_option(case, "datafusion.optimizer.enable_piecewise_merge_join", "true") && join_with_range_predicate(q) {
+            return Some("piecewise-merge-join-planner-unreachable".into());
+        }
+        if has_option(case, "datafusion.optimizer.prefer_hash_join", "false") && outer_join_with_filter(q) {
+            return Some("smj-join-filter-index-out-of-bounds".into());
+        }
+        None
     }
     fn run(&self, case: &Case) -> CaseResult {
         let q = &case.sql.query;
